@@ -213,7 +213,16 @@ func genScenario(r *rng, c genCfg) *scenario {
 				outs = []lab{twin, out}
 			} else if r.chance(1, 4) {
 				extra := c.randLabel(r, false)
-				if (extra.Name == "" && out.Name == "" && extra.Ty == out.Ty) || (extra.Name != "" && extra.Name == out.Name) {
+				// a second type-only output of the same type is kept only now and then, under another subtype:
+				// the two collide on the per-type key of the output set and only the later one is usable
+				collide := extra.Name == "" && out.Name == "" && extra.Ty == out.Ty
+				if collide && extra.Sub != out.Sub && r.chance(1, 2) {
+					if r.chance(1, 2) {
+						outs = []lab{extra, out}
+					} else {
+						outs = append(outs, extra)
+					}
+				} else if collide || (extra.Name != "" && extra.Name == out.Name) {
 					extra = lab{}
 				} else {
 					outs = append(outs, extra)
@@ -489,6 +498,27 @@ func genHopeless(r *rng, c genCfg) *scenario {
 		g := c.newConv(r, sc, []lab{{Ty: 8}}, []lab{{Ty: 9}})
 		f.Script, g.Script = "ok", "ok"
 		sc.Opts = append(sc.Opts, optSpecC{Kind: "convfunc", Fids: []int{f.ID}}, optSpecC{Kind: "conv", Fids: []int{g.ID}})
+	}
+	// a second converter with the very Go signature of an existing one (both must be reported), supplied
+	// as a built function so that its identity is observable
+	if len(sc.Funcs) > 1 && r.chance(1, 3) {
+		g := sc.Funcs[1+r.intn(len(sc.Funcs)-1)]
+		if g.Form != "built" && g.OForm != "built" {
+			twin := *g
+			twin.ID = len(sc.Funcs)
+			twin.Once = false
+			sc.Funcs = append(sc.Funcs, &twin)
+			sc.Opts = append(sc.Opts, optSpecC{Kind: "convfunc", Fids: []int{twin.ID}})
+		}
+	}
+	// converter generators next to the supplied converters: idle ones, or some converters generated
+	switch r.intn(5) {
+	case 0:
+		sc.Opts = append(sc.Opts, optSpecC{Kind: "gen", Vid: 90, Ty: r.intn(10), Name: "*", Fids: []int{0}, Sub: "nil"})
+	case 1:
+		if sc.buildAll() == nil {
+			sc.gensify(r)
+		}
 	}
 	return sc
 }
